@@ -114,11 +114,111 @@ fn run_concurrent(c: &[Val]) -> Val {
     Val::L(vec![Val::N(failed), Val::N(misplaced)])
 }
 
+/// kind 8 (harness built with the crate's `background_rotation` feature only): a roller and a CLONE of it, both kept,
+/// roll the same log file in turn without waiting for each other's background rotation; the first rotation is slow
+/// (its first step takes 300 ms).  Rotations of one roller - however many clones of it are in use - happen one
+/// after the other: result ( overlap final_listing ), overlap = 1 when a rotation began its steps while the
+/// previous one had not issued its last step; final_listing = the directory when everything has settled, which
+/// must be the synchronous model's directory after the same ops.
+fn run_bg_clone(c: &[Val]) -> Val {
+    use std::sync::atomic::{AtomicBool, AtomicUsize, Ordering};
+    use std::sync::Arc;
+    if !cfg!(feature = "background_rotation") {
+        return Val::err(8);
+    }
+    let base = c[1].n();
+    let count = c[2].n();
+    let pattern = c[4].str();
+    let file = c[6].str();
+    let tmp = tempfile::tempdir().expect("tempdir");
+    let root = tmp.path().to_path_buf();
+    std::env::set_current_dir(&root).expect("chdir");
+    let mut scope = Scope { env: vec![], other_mount: None };
+    for kv in c[5].l() {
+        let kv = kv.l();
+        std::env::set_var(kv[0].str(), kv[1].str());
+        scope.env.push(kv[0].str());
+    }
+    for pc in c[7].l() {
+        let pc = pc.l();
+        write_file(&pc[0].str(), pc[1].s());
+    }
+    let r = match FixedWindowRoller::builder()
+        .base(u32::try_from(base).expect("base is a u32"))
+        .build(&pattern, u32::try_from(count).expect("count is a u32"))
+    {
+        Ok(r) => r,
+        Err(_) => return Val::err(1),
+    };
+    let cl = r.clone();
+    let overlap = Arc::new(AtomicBool::new(false));
+    let calls = Arc::new(AtomicUsize::new(0));
+    let last_call = Arc::new(std::sync::Mutex::new(std::time::Instant::now()));
+    {
+        let (overlap, calls, last_call) = (overlap.clone(), calls.clone(), last_call.clone());
+        let mut in_flight = false;
+        let steps = count as usize;
+        log4rs::verif_hooks::set_rotate_step(Some(Box::new(move |k, _src, _dst| {
+            if k == 0 {
+                if in_flight {
+                    overlap.store(true, Ordering::SeqCst);
+                }
+                in_flight = true;
+            }
+            if k + 1 == steps {
+                in_flight = false;
+            }
+            if calls.fetch_add(1, Ordering::SeqCst) == 0 {
+                std::thread::sleep(std::time::Duration::from_millis(300));
+            }
+            *last_call.lock().unwrap() = std::time::Instant::now();
+            Ok(())
+        })));
+    }
+    struct Unhook;
+    impl Drop for Unhook {
+        fn drop(&mut self) {
+            log4rs::verif_hooks::set_rotate_step(None);
+        }
+    }
+    let _unhook = Unhook;
+    let mut rolls = 0usize;
+    let mut failed = 0u128;
+    for (i, op) in c[8].l().iter().enumerate() {
+        let op = op.l();
+        if op[0].n() != 1 {
+            continue;
+        }
+        write_file(&file, op[1].s());
+        let res = if i % 2 == 0 { r.roll(Path::new(&file)) } else { cl.roll(Path::new(&file)) };
+        if res.is_err() {
+            failed += 1;
+        } else {
+            rolls += 1;
+        }
+    }
+    // settled: every rotation has made its `count` hook calls and the last of them is 150 ms old
+    let t0 = std::time::Instant::now();
+    while t0.elapsed() < std::time::Duration::from_secs(10) {
+        let done = calls.load(Ordering::SeqCst) >= rolls * count as usize;
+        if done && last_call.lock().unwrap().elapsed() > std::time::Duration::from_millis(150) {
+            break;
+        }
+        std::thread::sleep(std::time::Duration::from_millis(5));
+    }
+    let l = listing(&root);
+    drop(scope);
+    Val::L(vec![Val::N(overlap.load(Ordering::SeqCst) as u128), Val::N(failed), listing_val(&l)])
+}
+
 fn run(case: &Val) -> Val {
     let c = case.l();
     let kind = c[0].n();
     if kind == 9 {
         return run_concurrent(c);
+    }
+    if kind == 8 {
+        return run_bg_clone(c);
     }
     let base = c[1].n();
     let count = c[2].n();
